@@ -29,16 +29,16 @@ C06 — a schema traced from samples accepts those same samples: the chain close
   C06_closure_readback  … and `deserialize_any` on the arrays returns those logical values — NO reader-side hypothesis, every
                         option (`Props.C03.toMarrow_readAny_of_physical` + `C06_closure_physical`); input-side size hypothesis
                         `xs.length ≤ i64::MAX`.  `C06_closure_readback_nodict`: options without dictionary-encoded strings, no
-                        size hypothesis at all (`Read.physical` from `Spec.WF`)
+                        size hypothesis at all (`Read.physical` from `Spec.WFS`: `Props.C03.wf_physical_plain`)
   C06_closure           the composition, EVERY option: hypotheses on the input only (capacity `Σ vsize ≤ 2^31 - 1`)
-No theorem of this file carries C01's `Safe` any more: the builder side is the hidden-rows refinement of Props/C01Obs.lean /
-Props/C01CompleteObs.lean.  `safeSchema` (the former hypothesis) is kept below only to state what the old theorems excluded
-(`safeSchema_can_fail`, now an instance of `C06_closure`).
+No theorem of this file carries C01's `Safe`: the builder side is the hidden-rows refinement of Props/C01Obs.lean /
+Props/C01CompleteObs.lean (`toMarrow_complete'`, `C01_build_decode'`, `C03_wfS'` in its alternative `coveredF`).  `safeSchema` is
+defined below only to state what a `Safe` hypothesis would exclude (`safeSchema_can_fail`, an instance of `C06_closure`).
 
 Exclusions, each an explicit decidable predicate on (data type of the traced field, sample) — `Lemmas/C06Excl.lean`:
 the three DOCUMENTED ones `nullAtEnum`, `dateLookalike`, `u64AboveI64`; the known finding `dataLessNewtype`; lifted to
-nested samples by `hits` (some position the mapping visits).  (The finding of this proof, `unitStructAtValue`, is repaired —
-repo fix ae2fc46, `unitStruct_accepted` / `unitStruct_pinned` — and no longer an exclusion.)  On the builder
+nested samples by `hits` (some position the mapping visits).  (The finding of this proof, a unit struct at a position not of
+type Null, is repaired — repo fix ae2fc46, `unitStruct_accepted` / `unitStruct_pinned` — and is not an exclusion.)  On the builder
 side: only the capacity bound `Σ vsize ≤ 2^31 - 1`.  `total` and `typedFs` are theorems (`to_schema_typed`;
 the traced instance of `total`, finding `C06-unseen-first-variant-default`, is repaired — repo fix 837fa53).  `excl_*_needed`: each exclusion is needed (a traced collection whose
 sample the mapping refuses exactly there).
@@ -150,7 +150,7 @@ overwrites) is
   * `total` — `totalFs`, in its form after repo fix 837fa53: a nullable struct's children take `serialize_default`.  Derived
     from the tracer's shape: a traced `Null` field is never an `UnknownVariant` placeholder outside a union, a Union traced
     from samples has a seen variant (`US`), and a seen variant's field takes `serialize_default` (induction).  So `total`
-    CANNOT fail for a traced schema any more: no instance of the repaired finding `C06-unseen-first-variant-default` remains;
+    CANNOT fail for a traced schema: no instance of the repaired finding `C06-unseen-first-variant-default` exists;
   * keyed by UInt32 wherever it has a dictionary (`wideFs`). -/
 theorem to_schema_typed (o : Options) (h0 : o.overwrites = []) {xs : List SVal} {fields : List Field}
     (h : fromSamples .fixed o xs = .ok fields) :
@@ -161,8 +161,8 @@ theorem to_schema_typed (o : Options) (h0 : o.overwrites = []) {xs : List SVal} 
 
 /-- C01's `Safe` as a DECIDABLE predicate on the schema (`Lemmas/C06SafeS.lean`): no dictionary with non-nullable keys
 where a nullable struct's `serialize_default` can reach it (through struct children and the first real variant of a
-union).  NO LONGER a hypothesis of any theorem of this file — kept (with `fromSamples_safe_iff`, `fromSamples_safeSchema`,
-`safeSchema_can_fail`) to state what the former theorems excluded and the present ones cover. -/
+union).  NOT a hypothesis of any theorem of this file — defined (with `fromSamples_safe_iff`, `fromSamples_safeSchema`,
+`safeSchema_can_fail`) to state what a `Safe` hypothesis would exclude and the closure theorems cover. -/
 def safeSchema (fields : List Field) : Bool := Lemmas.C06.safeFs (Fields.ofList fields)
 
 /-- for a traced schema, C01's `Safe` of the fresh root builder IS `safeSchema` (exact) -/
@@ -194,7 +194,7 @@ Hypotheses, all explicit and decidable:
   `hok`    the samples are serde values a Rust program can produce (`sampleOK`);
   `hex`    none of the exclusions: the three documented ones and `dataLessNewtype` (known finding);
   `hcap`   capacity in closed form: the sizes of the samples sum to at most `i32::MAX = 2^31 - 1` (`fromSamples_room`).
-ONLY input-side hypotheses + capacity.  No longer hypotheses: C01's `Safe` (the former `hsafe : safeSchema fields`; the
+ONLY input-side hypotheses + capacity.  NOT hypotheses: C01's `Safe` (`safeSchema fields`; the
 builder side is `Props.C01.toMarrow_complete'`, the completeness theorem on the weak state invariant — a traced schema
 with a non-nullable dictionary-encoded string inside an `Option<struct>`, `safeSchema_can_fail`, is covered), `total` and the
 typing invariant `typedFs` (`to_schema_typed`), that `build_builder` accepts the schema (`newRoot_traced`), the C01 side
@@ -264,8 +264,8 @@ EVERY tracing option, NO reader-side hypothesis: `Read.new … = ok`, `utf8Ok` a
 derived for the built arrays (`Props.C03.toMarrow_readAny_of_physical`: `wf_new` with `fromSamples_readable`, `wf_utf8`, from
 `C03_wfS'`; `C06_closure_physical`).  Remaining hypotheses, all on the input side: `hok` (samples are serde values), `hext` (`ExtOK`:
 the external chrono parsers return values in range; a theorem for the codec models, `Props.C03.codecExt_ok`), `hval` (`SValOK`: f32 /
-f64 / integer calls carry values of their width; implied by `SVal.typed`), `hsz` (at most `i64::MAX` samples — the former
-array-side hypothesis `hphys : Read.physical` is gone). -/
+f64 / integer calls carry values of their width; implied by `SVal.typed`), `hsz` (at most `i64::MAX` samples — no
+array-side hypothesis `Read.physical`). -/
 theorem C06_closure_readback (o : Options) (ext : Ext) (h0 : o.overwrites = []) (xs : List SVal)
     (fields : List Field) (arrs : List Arr) (h : fromSamples .fixed o xs = .ok fields)
     (hok : ∀ x ∈ xs, SampleOK o x)
@@ -290,7 +290,7 @@ theorem C06_closure_readback (o : Options) (ext : Ext) (h0 : o.overwrites = []) 
 /-- **`C06_closure_readback_nodict`**: the same with NO size hypothesis at all, for tracing options that
 never dictionary-encode strings (`string_dictionary_encoding = false`, `enums_without_data_as_strings = false`): the
 traced schema then has no Dictionary (and never a FixedSizeList) column — `Lemmas.C06.to_schema_physFree` — and `Read.physical`
-follows from `Spec.WF` alone (`Props.C03.wf_physical_plain`). -/
+follows from `Spec.WFS` alone (`Props.C03.wf_physical_plain`, through `Props.C03.toMarrow_readable`, i.e. `C03_wfS'`). -/
 theorem C06_closure_readback_nodict (o : Options) (ext : Ext) (h0 : o.overwrites = []) (xs : List SVal)
     (fields : List Field) (arrs : List Arr) (h : fromSamples .fixed o xs = .ok fields)
     (hd : o.string_dictionary_encoding = false) (he : o.enums_without_data_as_strings = false)
@@ -332,10 +332,10 @@ Hypotheses — ALL on the input, all decidable: the samples are serde values a R
 the three documented exclusions / the known finding `dataLessNewtype` applies (`hex`), the sizes of the samples sum to at most
 `i32::MAX` (`hcap`), the external chrono / float formatters are in range (`hext`; a theorem for the codec models).
 No hypothesis on the schema, the builder or the arrays remains: `Read.physical` is derived (`C06_closure_physical`), and C01's
-`Safe` — the former `hsafe : safeSchema fields` of the dictionary variant — is gone: a non-nullable dictionary-encoded string
+`Safe` (`safeSchema fields`) is not asked: a non-nullable dictionary-encoded string
 inside an `Option<struct>`, where the per-builder append-only statement R1 is false (`Props.C01.dict_placeholder_unstable`), is
-covered by the hidden-rows refinement; worked instance below, `wUnsafe`.  (Supersedes the former pair: the old `C06_closure` for options
-without dictionary encoding, and `C06_closure_dict` for every option with the strict bound `< 2^31 - 1`.) -/
+covered by the hidden-rows refinement; worked instance below, `wUnsafe`.  One theorem for every option: there is no separate
+dictionary variant. -/
 theorem C06_closure (o : Options) (ext : Ext) (h0 : o.overwrites = []) (xs : List SVal) (fields : List Field)
     (h : fromSamples .fixed o xs = .ok fields)
     (hok : ∀ x ∈ xs, SampleOK o x) (hex : ∀ x ∈ xs, excludedRow ext fields x = false)
@@ -396,12 +396,12 @@ example : closureHypsB { string_dictionary_encoding := true, enums_without_data_
 def wUnsafe : List SVal := [recOf [("o", .some (recOf [("d", .str "x")]))], recOf [("o", .none)]]
 
 set_option maxRecDepth 1000000 in
-/-- **`safeSchema` can fail for a traced schema** (why the closure theorems needed the hidden-rows refinement): the tracer
+/-- **`safeSchema` can fail for a traced schema** (why the closure theorems rest on the hidden-rows refinement): the tracer
 gives the Dictionary field the nullability of the string position, `build_builder` gives the key builder that nullability, and
 the `None` of the second sample sends `serialize_default` into non-nullable keys — C01's `dict_placeholder_unstable` shape,
 where the per-builder append-only statement R1 is false.  Every hypothesis of `C06_closure_build` / `C06_closure` holds
-and `to_marrow` accepts the collection (evaluated): the collection is INSIDE the present theorems (instance below), it was
-outside the former ones, which assumed `safeSchema`. -/
+and `to_marrow` accepts the collection (evaluated): the collection is INSIDE the closure theorems (instance below) and
+outside any statement that assumes `safeSchema`. -/
 theorem safeSchema_can_fail :
     (match fromSamples .fixed { string_dictionary_encoding := true } wUnsafe with
      | .ok fields =>
@@ -456,7 +456,7 @@ def acceptedB (o : Options) (xs : List SVal) : Bool :=
 set_option maxRecDepth 1000000 in
 /-- **Repaired**: `[1i32, UnitStruct]` traces to a nullable Int32 (a unit struct is traced like `()`); since the default
 `serialize_unit_struct` forwards to `serialize_unit`, the Int32 builder takes the unit struct as a null, the documented
-mapping says null, and no exclusion is needed (the former `unitStructAtValue` is gone from `exclAny`). -/
+mapping says null, and no exclusion is needed (`exclAny` has no disjunct for unit structs). -/
 theorem unitStruct_accepted : acceptedB {} (itemsOf [i32 1, .unitStruct "U"]) = true := by decide +kernel
 
 /-- **Pinned**: before ae2fc46 the default `serialize_unit_struct` refused, so `push` of a unit struct was the scalar call
